@@ -1133,7 +1133,13 @@ NARROWING = ("filter", "filter_map", "retain", "retain_mut", "skip_while", "take
 def r13f(P, R):
     """the resolvers behind `OperationResolver` know every configured document, and the name lists the traversal searches are
     searched in a way that does not presuppose an order"""
-    A = anchors(P)
+    try:
+        A = anchors(P)
+        entry, pred = A.entry, A.not_rec
+    except AnchorMissing:
+        # the traversal has another shape (e.g. an explicit work list): the entry point is still the public function by name
+        A, pred = None, None
+        entry = P.fn(SEM + "operation_import_resolver::resolve_operation_imports")
     # (1) which files a resolver knows must not depend on what a file defines: the index is built where the resolver value is
     # constructed and where the entry point is called from; a narrowing adaptor there whose predicate reads the definitions of the
     # document leaves valid import targets out (=> FileNotFound for a configured file)
@@ -1143,13 +1149,13 @@ def r13f(P, R):
     for g in P.fns.values():
         if g.derived or "::tests::" in g.path or "/tests" in g.file or g.kind not in ("Fn", "AssocFn"):
             continue
-        if A.entry.path in P.callees_of(g)[0] or any(x.get("k") in ("Struct", "Call", "Path") and "rest" not in x and
+        if entry.path in P.callees_of(g)[0] or any(x.get("k") in ("Struct", "Call", "Path") and "rest" not in x and
                                                       norm(x.get("adt") or x.get("ctor_of") or "").split("<")[0] in adts for x in g.walk()):
             scope[g.path] = g
     R.floor("R13-f", "functions that build a resolver / call the import resolution", len(scope), 1)
     bad = []
     for g in scope.values():
-        gi = inlined(P, g, pred=A.not_rec)
+        gi = inlined(P, g, pred=pred)
         gp = Prov(gi)
         for x in gi.walk():
             if x.get("k") == "MethodCall" and x["method"] in NARROWING and x["args"] and \
@@ -1163,6 +1169,9 @@ def r13f(P, R):
     else:
         R.holds("R13-f", "resolver-index", "no document is left out of a resolver's index because of what it defines (%d functions)" % len(scope))
     # (2) a binary search over the names of an import presupposes that every Import is constructed with a sorted list
+    if A is None:
+        R.undecided("R13-f", "name-search", "the import traversal is not located on this shape of the code; how it looks names up is not decided")
+        return
     T, pv = A.T, A.pv
     searches = [x for x in T.walk() if x.get("k") == "MethodCall" and x["method"].startswith("binary_search")
                 and has_field(pv.atoms(x["recv"]), A.import_adt, "targets")]
